@@ -697,7 +697,7 @@ def body_isa(ctx, case):
         if case['scalar']:
             for x, v in zip(xs, va):
                 ok, vs = call(ctx, clause, 'scalar', fn, x)
-                if ok and not close(flist(vs)[0], v, 1e-13):
+                if ok and not close(flist(vs)[0], v, 1e-10, 1e-7):  # not bitwise: numpy's scalar and array paths round differently (found by the thorough tier)
                     ctx.fail(clause, 'mismatch', fn.__name__, 'scalar_vs_array', f'{fn.__name__}({x!r}) scalar {vs} array {v}')
         return va
 
@@ -726,6 +726,20 @@ def body_isa(ctx, case):
             if alts[j] - alts[i] > 1e-6 and not p[j] < p[i]:
                 ctx.fail('isa.pressure_monotone', 'mismatch', 'pressure_at_altitude_isa_bada4', region(alts[j]),
                          f'p({alts[i]!r})={p[i]!r} <= p({alts[j]!r})={p[j]!r}')
+    # integer-typed altitudes (a Python int or an int ndarray are legal inputs) must give the same values
+    ints = sorted({int(round(h)) for h in alts if 0 <= round(h) <= 25000})[:6]
+    if ints:
+        ctx.label('isa.integer_typed_altitudes')
+        for fn, ref, nm in ((sa.temperature_at_altitude_isa_bada4, ref_T, 'isa.temperature'),
+                            (sa.pressure_at_altitude_isa_bada4, ref_p, 'isa.pressure')):
+            ok, vi = call(ctx, nm, 'int_array', fn, np.array(ints, dtype=np.int64))
+            if ok:
+                for h, v in zip(ints, flist(vi)):
+                    if not close(v, ref(float(h))):
+                        ctx.fail(nm, 'mismatch', fn.__name__, 'integer_dtype', f'{fn.__name__}(int array, {h}) = {v!r}, ISA {ref(float(h))!r}')
+            ok, v1 = call(ctx, nm, 'int_scalar', fn, ints[0])
+            if ok and not close(flist(v1)[0], ref(float(ints[0]))):
+                ctx.fail(nm, 'mismatch', fn.__name__, 'integer_dtype', f'{fn.__name__}({ints[0]}) = {flist(v1)[0]!r}, ISA {ref(float(ints[0]))!r}')
     # inverse law the other way round, and the altitude reference
     ps = [float(x) for x in case['ps']]
     hs = both('isa.altitude', sa.altitude_from_pressure_isa_bada4, ps)
